@@ -24,10 +24,11 @@ CLAIMS = {
        "list: empty -> unresolved, else continue at the next position with every element in order), retrieve_index (all i32: element |i| "
        "iff |i| < len), map_resolved, the filter on a map value, and the dispatcher arm by arm (this, [*], *, [n], .key, [filter] on list) "
        "- each against an arbitrary result of the continuation.",
-  note="NOT covered: the parser, the traversal arms for a variable head / variable key / map `*` / `keys` filters and the recursion as a "
-       "whole (each step is decided against an arbitrary result of the next), the pairing strategies of EqOperation / InOperation "
-       "(literal-vs-query cases, list flattening; operators.rs does not terminate under CBMC and its iterator-closure code is beyond the "
-       "MIR executor's call models), functions inside clauses. The Kani evaluation context "
+  note="Also on MIR: the variable head of a query (resolved through the scope, each value continued at the next position), EqOperation / "
+       "InOperation operand roles (a left value is always paired with a right value, by compare_eq), contained_in's five cases, and the "
+       "rule-status rule `rule referenced by name = its RuleCheck status`. NOT covered: the parser, the traversal arms for a variable key "
+       "/ map `*` / `keys` filters and the recursion as a whole (each step is decided against an arbitrary result of the next), the "
+       "literal-vs-query special cases and list flattening of EqOperation / InOperation, functions inside clauses. The Kani evaluation context "
        "is a harness stub that returns planted query results; the MIR checks model every callee by a symbolic result and keep loops to "
        "<= 2 iterations (longer selections are cut and counted in the evidence).",
   design="4/C01"),
@@ -45,7 +46,7 @@ CLAIMS = {
        "the contexts differ; start_record opens one record.",
   note="The MIR checks model every callee by a symbolic result (e.g. eval_rule returns an arbitrary Result<Status,Error>), unroll loops "
        "twice and treat unknown statements as havoc: they decide the aggregation logic of each function, not the callees. NOT covered: "
-       "the records written by filters and parameterised rule calls, whole-run well-nesting (only each single start / end step is decided) (only call balance through a counting stub), "
+       "the records written by filters and parameterised rule calls, whole-run well-nesting (only each single start / end step is decided), "
        "the JSON rendering.",
   design="4/C02"),
  "C03": dict(
@@ -68,9 +69,30 @@ CLAIMS = {
        "vectors; plus commutativity/associativity of the file-status combination.",
   note="History dimension: decided at MIR level only as 'memo consistency' of RootScope::rule_status, RootScope::resolve_variable and "
        "BlockScope::resolve_variable (what is stored in the cache is the value returned, on every path; callees havoced, opaque values "
-       "tracked by identity) plus the order-free fold of eval_rules_file. NOT covered: the traversal that fills those caches, key "
+       "tracked by identity) plus the order-free fold of eval_rules_file and the named-rule status rule (RootScope::rule_status, <=2 definitions: the cached status if "
+       "present, else the definitions of that name are evaluated in order through eval_rule and the first status that is not SKIP "
+       "decides, SKIP if all are; the result is stored under that name and returned). NOT covered: the traversal that fills those caches, key "
        "capture (add_variable_capture_key), parameterised rules.",
   design="4/C04"),
+ "C05": dict(
+  text="Order-independence, decided on MIR (z3+cvc5): inside one process image the only run-to-run variable is the iteration order of "
+       "std HashMap / HashSet (RandomState). Every function of the crate that iterates such a collection, and every derived Serialize "
+       "that serialises one in place, is ENUMERATED FROM THE MIR OF THE CURRENT TREE on every run; the iteration order is a symbolic "
+       "permutation of two visited elements with distinct symbolic keys, and the obligation is that no feasible path emits to a sequence, "
+       "writer or record tracker that outlives the loop in both visits (otherwise the two orders give two different outputs). Sites that "
+       "only feed console / plain-text lines (the property's own tolerance) are listed with that reason; one of them is the analysis' "
+       "twin and must be flagged. A candidate is a VIOLATION only if the real CLI, run 8 times in fresh processes on multi-rule inputs "
+       "(validate --structured json/yaml/sarif/junit, validate -o json/yaml, --verbose --print-json, parse-tree, test -o json/yaml/junit), "
+       "prints two different byte strings (time fields masked). Found that way: `test -o json|yaml|junit` listed rules in hash order "
+       "(genuine defect, fixed).",
+  note="This decides the hash-order part of C05 for structured output only. Assumptions that are part of the claim: A1 report_at_least_one's "
+       "by-lhs map has one key (its only caller passes one scalar left-hand value); A2 TestExpectations is never serialised to an output; A3 "
+       "DataOutput (legacy GenericReporter::report renderer) is not reachable from any command; Metadata maps are empty (re-checked on MIR: "
+       "no insert on HashMap<String,String>). NOT covered: console / plain-text output (tolerated order differences are not distinguished "
+       "from others), dependence on environment variables, the clock and earlier evaluations in the same process (C12 covers the scopes), "
+       "iteration hidden inside dependencies (serde_yaml / indexmap are order-preserving), exit codes (order-free folds: C06). No Kani "
+       "harness serves this property (a HashMap with symbolic keys does not terminate under CBMC).",
+  design="0b/C05"),
  "C06": dict(
   text="Bounded model checking of the two pure exit-code kernels: commands::test::get_exit_code folded over any sequence of <= 4 "
        "per-file codes is max-by-severity (1 > 7 > 0) and never reaches unreachable!(); reporters::test::get_status_result decides "
@@ -85,7 +107,7 @@ CLAIMS = {
        "exactly by the case mark and JunitReporter::report turns the totals into update_exit_code(ERROR | FAILURE | nothing); the "
        "--structured parse closure sets the exit code to 5 on a parse error and leaves that file out; `test`'s plain reporter exits 0 / 7 / 1 "
        "by mismatches / unreadable files.",
-  note="NOT covered: `test`'s structured / JUnit reporter and --dir mode beyond get_exit_code, files/stdin/clap, main(). The MIR checks fix verbose = print_json = false and no input parameters.",
+  note="NOT covered: the exit code of `test`'s structured / JUnit reporter and --dir mode beyond get_exit_code, files/stdin/clap, main(). The MIR checks fix verbose = print_json = false and no input parameters.",
   design="4/C06"),
  "C08": dict(
   text="Panic-freedom (Kani's panic/overflow/bounds/unwrap checks) of every harnessed kernel for all inputs in its bound, in particular "
@@ -109,8 +131,11 @@ CLAIMS = {
        "the FileCheck status; not_compliant is built from the same child records.",
   note="Also decided (MIR, z3+cvc5): eval_rules_file writes its records by evaluating every rule through eval_rule exactly once per "
        "iteration - the precondition for every rule to appear in the report (a rule served from the status cache writes no RuleCheck "
-       "record). NOT covered: clause attribution (report_all_failed_clauses_for_rules: ~15 record shapes, recursive), that every FAIL rule "
-       "appears in not_compliant, the serialised JSON.",
+       "record). The report builder report_all_failed_clauses_for_rules is decided over one record (children's reports arbitrary): a "
+       "FAIL rule record always yields exactly one Rule entry with that rule's name (also when no individual check can be shown), a PASS / "
+       "SKIP rule record yields nothing, and NOTHING is listed for any record whose own status is PASS or SKIP (all status-carrying record "
+       "kinds: file, rule, conditions, type / when / block / disjunction / clause-block checks, unary / comparison / in clause checks). "
+       "NOT covered: the text of the messages and the per-shape content of each clause report, the serialised JSON.",
   design="4/C09"),
  "C10": dict(
   text="Bounded symbolic execution (MIR, callees modelled, value identities tracked; z3+cvc5) of the loader -> evaluator conversion "
@@ -135,19 +160,21 @@ CLAIMS = {
        "pushed; handle_type_ref - !!bool / !!int / !!float / !!null give the parsed value, an unparsable !!int / !!float is a BadValue "
        "(rejected), any other tag a String.",
   note="This is the typing cascade of the validate loader only. NOT covered: what str::parse::<i64|f64|bool> accept (e.g. `inf`, `nan`, "
-       "`+1` are accepted by Rust's parsers), agreement with serde_yaml / serde_json used by `test` and the library API, short-form "
-       "intrinsic tags (string tables), aliases and non-string keys, key/list order, libyaml itself. No Kani harness serves this property.",
+       "`+1` are accepted by Rust's parsers), agreement with serde_yaml / serde_json used by `test` and the library API, the content "
+       "of the short-form intrinsic tables beyond their shape (every short tag maps to an `Fn::`/`Ref` long form, sequence vs single-value "
+       "sets disjoint), aliases and non-string keys, key/list order, libyaml itself. No Kani harness serves this property.",
   design="0b/C11"),
  "C12": dict(
   text="Bounded symbolic execution (MIR, callees modelled, value identities tracked; z3+cvc5) of the three validate loops that pair "
        "rules files with documents - CommonStructuredReporter::report (<=2 documents x <=2 rules files), get_test_case (JUnit path), "
-       "evaluate_against_data_input (plain mode, <=2 documents) - and of `test`'s get_by_result (one scope per test case): every pair is evaluated exactly once, in a scope that root_scope "
+       "evaluate_against_data_input (plain mode, <=2 documents) - and of `test`'s get_by_result and StructuredTestReporter::evaluate (one scope per test case, <=2 files x <=2 cases; the case's "
+       "expectations are looked up in THAT case's table): every pair is evaluated exactly once, in a scope that root_scope "
        "built from exactly that rules file and that document; the scope handed to eval_rules_file is the one created for the pair and "
        "is never reused; the evaluation is labelled with that document's name; each pair's report is the one combined into the "
        "document's report.",
   note="This decides the wiring of the loops (which values reach root_scope / eval_rules_file), i.e. that no evaluation state object is "
        "shared between pairs; it does NOT decide that RootScope holds all mutable state, directory walking / ordering (-a / -m), "
-       "input-parameter merging, nor the `test` command's loops (closure-based). No Kani harness serves this property.",
+       "the content of merged input parameters (wiring of the merge is under C17). No Kani harness serves this property.",
   design="0b/C12"),
  "C13": dict(
   text="Bounded model checking of the comparison kernel: for ALL pairs of i64, ALL pairs of f64 (NaN => not comparable, -0.0 == 0.0), "
@@ -171,7 +198,9 @@ CLAIMS = {
        "with this scope as resolver; what is stored in a scope's cache is exactly what is returned (first reference == later references); "
        "eval_parameterized_rule_call (<=2 arguments): arity mismatch or a failing argument is an error, the k-th argument is bound to the "
        "k-th parameter name, the called rule is evaluated once in a context holding exactly these bindings on top of the caller's, and "
-       "its status is returned unchanged.",
+       "its status is returned unchanged; the context of a parameterised call resolves a parameter name to its bound values and "
+       "everything else through the caller's scope; a query whose head is a variable resolves it through the scope and continues every "
+       "value at the next position.",
   note="This decides the wiring of variable and parameter resolution, not program equivalence: that a program and its abstracted form "
        "give the same verdict additionally needs query traversal, block_scope construction (extract_variables) and the parser's "
        "`[*]` insertion after a leading variable, none of which is examined. The `%var empty` exception is covered under C01/C03 "
@@ -183,9 +212,11 @@ CLAIMS = {
        "of the per-file exit fold get_exit_code. On MIR (z3+cvc5): GenericReporter::report (<=2 test files x <=2 cases: exit 0 iff every "
        "file was readable and no case has a FAIL group, 7 if only mismatches, 1 if only unreadable files) and get_by_result (one evaluation "
        "per case in a fresh scope built from the rules file and the case's input; a rule without a stated expectation is counted neither "
-       "as met nor as failed; met -> PASS group, else FAIL group).",
-  note="NOT covered: that `test` and `validate` compute the same statuses (two loaders + the evaluator), get_by_rules' grouping, the "
-       "structured / JUnit test reporter, `--dir` mode, the four renderings.",
+       "as met nor as failed; met -> PASS group, else FAIL group), get_by_rules' fold step (a RuleCheck record is appended to the group of its own name, other "
+       "records change nothing) and StructuredTestReporter::evaluate (fresh scope per case; no expectation -> skipped_rules only; "
+       "get_status_result(expected, this rule's records) decides passed_rules / failed_rules with the right statuses).",
+  note="NOT covered: that `test` and `validate` compute the same statuses (two loaders + the evaluator), `--dir` mode, the rendering of "
+       "the four output formats.",
   design="4/C16"),
  "C17": dict(
   text="PathAwareValue::merge decided twice: by Kani/CBMC on one-entry maps with symbolic integer values (equal keys: MultipleValues "
@@ -194,8 +225,10 @@ CLAIMS = {
        "(z3+cvc5, second map with <=2 entries, `contains_key` / the previous value returned by `insert` arbitrary): Ok only if NO key of "
        "the second map was already defined - whatever the values, including null - and then every entry is stored under its own key with "
        "its own value and listed in `keys`; a key defined twice is an Err; disjoint maps never give an Err. The --structured call site "
-       "never unwraps a failing merge (found a panic there; fixed).",
-  note="NOT covered: the folding loop over -i files in Validate::execute (file I/O), that `keys` and `values` stay aligned for `keys` "
+       "never unwraps a failing merge (found a panic there; fixed). Wiring (MIR): every document is evaluated as merge(parameters, "
+       "document) in both the plain and the --structured path, and one step of the -i fold merges the next file into the accumulated "
+       "parameters (an error stops the run).",
+  note="NOT covered: reading the -i files, that `keys` and `values` stay aligned for `keys` "
        "filters beyond the per-entry push, list merging semantics (extend), equality of verdicts with the pre-merged document.",
   design="0b/C17"),
  "C18": dict(
@@ -215,10 +248,9 @@ CLAIMS = {
   design="4/C18"),
 }
 
-MIR_ONLY = {"C11", "C12", "C15"}
+MIR_ONLY = {"C05", "C11", "C12", "C15"}
 
 NA = {
- "C05": "needs fresh hash seeds/processes; symbolic SipHash keys through hashbrown and the serde/console writers are beyond CBMC (a HashMap with unknown keys timed out at 10 min on two inserts)",
  "C07": "whole-program cross-format property over serde_json/serde_yaml/quick-xml/clap/file I/O; no bounded kernel the solver can be pointed at",
  "C14": "nom/LocatedSpan combinators do not terminate under CBMC even on a 2-byte symbolic input (18 min, 7 GB); the parser is outside this technique on this image",
  "C19": "serde template parsing + string building + the full parser and evaluator round trip; whole-program",
@@ -260,8 +292,8 @@ def main():
         "engines": [
             {"name": "kani-cbmc", "path": "/verif/check", "serves_properties": sorted(set(CLAIMS) - MIR_ONLY),
              "kind_free_text": "Kani 0.68 (rustc MIR -> goto-program) + CBMC 6.11 (symbolic execution, bit-blasting, CaDiCaL) over the real cfn-guard crate; counterexamples replayed natively with cargo kani playback"},
-            {"name": "mir-smt", "path": "/verif/lib/mirsmt.py", "serves_properties": ["C01", "C02", "C03", "C04", "C06", "C08", "C09", "C10", "C11", "C12", "C13", "C15", "C16", "C17", "C18"],
-             "kind_free_text": "nightly -Zunpretty=mir dump of the current tree; lib/mirsmt.py (loop-free kernels, havoc-mode overflow/negate site search), lib/mirexec.py (bounded path enumeration with call models, loop unrolling, value identities) and lib/miragg.py / mirblocks.py / mirflow.py (aggregation, memoisation, index, negation-flow, block, operator-layer, wiring and exit-code obligations) emit SMT-LIB2 decided by z3 4.8.12 and cvc5 1.0 (must agree); candidates are replayed through the real CLI built from the scratch copy"},
+            {"name": "mir-smt", "path": "/verif/lib/mirsmt.py", "serves_properties": ["C01", "C02", "C03", "C04", "C05", "C06", "C08", "C09", "C10", "C11", "C12", "C13", "C15", "C16", "C17", "C18"],
+             "kind_free_text": "nightly -Zunpretty=mir dump of the current tree; lib/mirsmt.py (loop-free kernels, havoc-mode overflow/negate site search), lib/mirexec.py (bounded path enumeration with call models, loop unrolling, value identities) and lib/miragg.py / mirblocks.py / mirflow.py / mirpaths.py / mirload.py / mirquery.py / mirorder.py (aggregation, memoisation, index, negation-flow, block, operator-layer, wiring and exit-code obligations) emit SMT-LIB2 decided by z3 4.8.12 and cvc5 1.0 (must agree); candidates are replayed through the real CLI built from the scratch copy"},
         ],
         "checks": checks,
         "notes": "Solver-based checking only (see DESIGN.md). exit 0 = held within the stated bounds; exit 1 + VIOLATION line = natively reproduced counterexample; exit 2 = inconclusive (timeout, OOM, harness no longer compiles, vacuous harness, non-reproducing counterexample) - never reported as success. Genuine defects found and fixed: known_findings.json.",
